@@ -14,7 +14,6 @@ import (
 	"strings"
 	"sync"
 	"sync/atomic"
-	"time"
 
 	"github.com/facebookincubator/dns/dnsrocks/dnsdata"
 
@@ -173,7 +172,6 @@ type levelA struct {
 
 	fails map[uint32]failBits // sets (of size < current level) with at least one failing client
 
-	skipped                          int64
 	sets, evals, nontrivial, failing int64
 	setsBySize                       [5]int64
 }
@@ -337,8 +335,10 @@ func describe(got int, mlen uint8, et string) string {
 	}
 }
 
-// run enumerates all sets of size 1..k, level by level.
-func (a *levelA) run(k int, deadline time.Time) {
+// run enumerates all sets of size 1..k, level by level. allowed[size][p] says
+// whether alphabet prefix p may be a member of sets of that size (a purely
+// spatial bound: quick restricts the largest size to the shallower trees).
+func (a *levelA) run(k int, allowed [][]bool) {
 	nItems := len(a.alpha) * 2
 	canon := canonIndex(a.alpha)
 	for size := 1; size <= k; size++ {
@@ -347,12 +347,16 @@ func (a *levelA) run(k int, deadline time.Time) {
 		var tasks []task
 		if size == 1 {
 			for i := 0; i < nItems; i++ {
-				tasks = append(tasks, task{i, -1})
+				if allowed[size][i/2] {
+					tasks = append(tasks, task{i, -1})
+				}
 			}
 		} else {
 			for i := 0; i < nItems; i++ {
 				for j := (i/2 + 1) * 2; j < nItems; j++ {
-					tasks = append(tasks, task{i, j})
+					if allowed[size][i/2] && allowed[size][j/2] {
+						tasks = append(tasks, task{i, j})
+					}
 				}
 			}
 		}
@@ -361,10 +365,6 @@ func (a *levelA) run(k int, deadline time.Time) {
 		store := size < k
 		vlib.ParallelFor(len(tasks), func(ti int) {
 			t := tasks[ti]
-			if time.Now().After(deadline) {
-				atomic.AddInt64(&a.skipped, 1)
-				return
-			}
 			local := map[uint32]failBits{}
 			ids := make([]int, 0, size)
 			set := make([]decl, 0, size)
@@ -386,6 +386,9 @@ func (a *levelA) run(k int, deadline time.Time) {
 			}
 			push := func(id int) bool {
 				pi := id / 2
+				if !allowed[size][pi] {
+					return false
+				}
 				for _, id2 := range ids {
 					if canon[id2/2] == canon[pi] {
 						return false
@@ -430,10 +433,6 @@ func (a *levelA) run(k int, deadline time.Time) {
 		for k, v := range next {
 			a.fails[k] = v
 		}
-	}
-	if a.skipped > 0 {
-		a.r.Exhaustive = false
-		a.r.Note("level A: %d enumeration tasks (sets sharing their first two members) skipped by the wall-clock cap", a.skipped)
 	}
 }
 
